@@ -93,7 +93,11 @@ def nan_addresses(obj, ds2, nf):
 def eval_grid(i, scn):
     ck = Checker()
     kind, pred = scn["kind"], scn["pred"]
-    ds2 = kind == "DS2"
+    ds2 = kind in ("DS2", "LIST2")
+    lst = kind == "LIST2"
+    # a list of two arrays is handled as the two-variable Dataset it corresponds to: IN() on the way in, OUT() on the way out
+    IN = (lambda o: [o["a"], o["b"]] if lst and isinstance(o, xr.Dataset) else o)
+    OUT = (lambda o: xr.Dataset({"a": o[0], "b": o[1]}) if lst and isinstance(o, (list, tuple)) else o)
     stacked = kind in ("DA2S", "DAMI")
     NS, NF = eval_grid.shape_stacked if stacked else eval_grid.shape
     sd = sample_dims(kind)
@@ -109,13 +113,13 @@ def eval_grid(i, scn):
     mk = lambda k: xe.single.EOF(n_modes=k, center=center, solver="full")  # noqa: E731
     if cls == "isolated":
         try:
-            mk(1).fit(data, sd)
+            mk(1).fit(IN(data), sd)
             ck.d(False, "C06", "C06_IsolatedRefused", "fit accepted data containing an isolated NaN")
         except Exception:
             ck.d(True, "C06", "C06_IsolatedRefused", "")
         try:
-            m = mk(1).fit(clean, sd)
-            m.transform(data)
+            m = mk(1).fit(IN(clean), sd)
+            m.transform(IN(data))
             ck.d(False, "C06", "C06_IsolatedRefused", "transform accepted data containing an isolated NaN")
         except Exception:
             ck.d(True, "C06", "C06_IsolatedRefused", "")
@@ -123,11 +127,13 @@ def eval_grid(i, scn):
     if not pred["enough"]:
         return dict(found=[], count={"dont_care": 1})
     dropS, dropF = sorted(pred["dropS"]), sorted(pred["dropF"])
+    if lst and (all(f in dropF for f in range(1, NF // 2 + 1)) or all(f in dropF for f in range(NF // 2 + 1, NF + 1))):
+        return dict(found=[], count={"dont_care_empty_list_element": 1})
     keepS = [s for s in range(1, NS + 1) if s not in dropS]
     keepF = [f for f in range(1, NF + 1) if f not in dropF]
     k = max(1, min(len(keepS) - (1 if center else 0), len(keepF), 2))
     try:
-        m = mk(k).fit(data, sd)
+        m = mk(k).fit(IN(data), sd)
     except Exception as e:  # noqa
         ck.d(False, "C06", "C06_DropExactly", f"fit refused data whose only NaNs are fully missing samples/features: {type(e).__name__}: {str(e)[:120]}")
         return dict(found=ck.found, D=ck.D, count={cls: 1})
@@ -147,7 +153,7 @@ def eval_grid(i, scn):
         red = xr.Dataset(parts) if len(parts) == 2 else None
     else:
         red = red.isel(x=[f - 1 for f in keepF])
-    comps, scores = m.components(), flat(m.scores(), kind, NS)
+    comps, scores = OUT(m.components()), flat(m.scores(), kind, NS)
     clean_flat = to_xr(A, ds2)
     # NaN at exactly the deleted labels
     if ds2:
@@ -160,7 +166,7 @@ def eval_grid(i, scn):
         set(range(1, NS + 1)) - {int(t) // 10 + 1 for t in scores.time.values}
     ck.d(got_s == set(dropS), "C06", "C06_DropExactly", f"scores are missing/NaN at samples {sorted(got_s)}, specification says {dropS}")
     try:
-        rec = flat(m.inverse_transform(m.scores()), kind, NS)
+        rec = flat(OUT(m.inverse_transform(m.scores())), kind, NS)
         want = {(s, f) for s in range(1, NS + 1) for f in range(1, NF + 1) if s in dropS or f in dropF}
         if not ds2 or isinstance(rec, xr.Dataset):
             rec = rec.reindex(time=clean_flat.time)
@@ -170,7 +176,7 @@ def eval_grid(i, scn):
         ck.d(False, "C06", "C06_DropExactly", f"inverse_transform raised {type(e).__name__}: {str(e)[:120]}")
     # equals the model fitted on the reduced data
     if red is not None and (not ds2 or len(red.data_vars) == 2):
-        ref = mk(k).fit(red, "time")
+        ref = mk(k).fit(IN(red), "time")
         sv, svr = m.singular_values().values, ref.singular_values().values
         ck.m(np.allclose(sv, svr, rtol=1e-8, atol=1e-10), "C06", "C06_EqualsDeletedBeforehand", f"singular values {sv.tolist()} differ from the model of the data with the labels deleted beforehand {svr.tolist()}")
         why = same(scores.dropna("time", how="all"), ref.scores(), rtol=1e-7, what="scores")
@@ -181,7 +187,7 @@ def eval_grid(i, scn):
             ck.m(why is None, "C06", "C06_EqualsDeletedBeforehand", f"components differ from the pre-deleted model: {why}")
     # transform: the training data reproduces the scores; a different missing-feature set is refused
     try:
-        t = flat(m.transform(data), kind, NS)
+        t = flat(m.transform(IN(data)), kind, NS)
         if stacked:
             t = t.dropna("time", how="all")
         why = same(t, scores.dropna("time", how="all") if t.sizes["time"] != scores.sizes["time"] else scores, rtol=1e-7, what="transform")
@@ -205,7 +211,7 @@ def eval_grid(i, scn):
     mismatch = None
     for mismatch_kind, other in others:
         try:
-            m.transform(other)
+            m.transform(IN(other))
             mismatch = mismatch_kind
             ck.d(False, "C06", "C06_TransformMaskMismatchRefused", f"transform accepted data whose fully missing features differ from the training data ({mismatch_kind}, center={center})")
             break
@@ -225,7 +231,7 @@ def eval_grid(i, scn):
         ck.d(gs == set(dropS), "C06", "C06_DropExactly", f"rotated scores NaN at samples {sorted(gs)}, specification says {dropS}")
         if red is not None and (not ds2 or len(red.data_vars) == 2):
             try:
-                rref = xe.single.EOFRotator(n_modes=k).fit(mk(k).fit(red, "time"))
+                rref = xe.single.EOFRotator(n_modes=k).fit(mk(k).fit(IN(red), "time"))
             except RuntimeError:
                 return dict(found=ck.found, D=ck.D, M=ck.M, count={cls: 1, "rotation_not_converged": 1}, ctx=dict(mismatch=mismatch, center=bool(center)))
             why = same(rs.dropna("time", how="all"), rref.scores(), rtol=1e-6, what="rotated scores")
@@ -244,7 +250,8 @@ def eval_cross(i, scn):
     Y = rng.normal(size=(n, 2)) + X[:, :2]
     t = np.arange(n) * 10
     mkx = lambda a: xr.DataArray(a, dims=("time", "x"), coords=dict(time=t, x=[0, 1, 2]))  # noqa: E731
-    mky = lambda a: xr.DataArray(a, dims=("time", "y"), coords=dict(time=t, y=[0, 1]))  # noqa: E731
+    ty = t + 10 if scn["kind"] == "CROSSLAG" else t        # a lagged analysis: the second field carries other sample labels
+    mky = lambda a: xr.DataArray(a, dims=("time", "y"), coords=dict(time=ty, y=[0, 1]))  # noqa: E731
     Xm, Ym = X.copy(), Y.copy()
     for r in scn["rx"]:
         Xm[r - 1] = np.nan
@@ -276,7 +283,7 @@ def main():
     eval_grid.shape_stacked = (4, 4) if th else (4, 3)
     if replay is not None:
         sc = replay["scenario"]
-        fn = eval_cross if sc["scenario"]["kind"] == "CROSS" else eval_grid
+        fn = eval_cross if sc["scenario"]["kind"] in ("CROSS", "CROSSLAG") else eval_grid
         out = fn(sc["index"], sc["scenario"])
         for prop, clause, msg in out["found"]:
             if prop in TAGS:
@@ -293,6 +300,12 @@ def main():
     else:
         f0 = []
     f1 = scenrun.evaluate(rep, s1, eval_grid, procs=a.procs, chunksize=16)
+    # the same masks with the features split over two list elements
+    s4 = scenrun.enumerate_scenarios(rep, "MC_XMask", cfg(rep.tier, "KList", 3, 4), f"c06list_{rep.tier}", workers=8)
+    _shape = eval_grid.shape
+    eval_grid.shape = (3, 4)
+    f1 += scenrun.evaluate(rep, s4, eval_grid, procs=a.procs, chunksize=16)
+    eval_grid.shape = _shape
     # the same masks on a sample axis that is a stacked index (two sample dimensions / a user MultiIndex)
     s3 = scenrun.enumerate_scenarios(rep, "MC_XMask", cfg(rep.tier, "KStack", *eval_grid.shape_stacked), f"c06stack_{rep.tier}", workers=8)
     f1 += scenrun.evaluate(rep, s3, eval_grid, procs=a.procs, chunksize=16)
@@ -308,7 +321,7 @@ def main():
     scenrun.report(rep, f0 + f1 + f2, TAGS)
     rep.exhaustive = True
     rep.extra["rule"] = f"all 2^{shape[0] * shape[1]} NaN masks of a {shape[0]}x{shape[1]} grid (DataArray and two-variable Dataset), all masks of a {eval_grid.shape_stacked[0]}x{eval_grid.shape_stacked[1]} grid whose sample axis is two stacked dimensions / a MultiIndex, and all pairs of missing-sample sets of two fields with 5 samples; non-trivial = non-empty mask"
-    rep.extra["distinct_nontrivial"] = sum(1 for s in s1 + s3 if s["nan"]) + sum(1 for s in s2 if s["rx"] or s["ry"])
+    rep.extra["distinct_nontrivial"] = sum(1 for s in s1 + s3 + s4 if s["nan"]) + sum(1 for s in s2 if s["rx"] or s["ry"])
     return common.finish(rep)
 
 
